@@ -21,9 +21,10 @@ tie, checked on every run (T-acc + T-diff on the REAL .vcd file):
   random small pymtl3 designs (children, nested children, lists of components/ports, Bits of many widths,
   bitstruct ports incl. nested/list fields, pure-connection nets spanning several components, constants, slices and
   struct-field connections, never-written wires, counters/toggles) are simulated with DefaultPassGroup(vcdwave=...,
-  textwave=True).  A sampling function is inserted immediately before the VCD dump function in the two tick
-  schedules PrepareSimPass builds (sim_tick and sim_reset); it reads every top-level signal's live object and packs
-  it with to_bits().  The .vcd file is tokenised here (header -> (scope.name, width, code); body -> `#t` tokens and
+  textwave=True).  A sampling function is inserted into the two tick
+  schedules PrepareSimPass builds (sim_tick and sim_reset) at the clock edge = immediately before the first
+  flip-flop/posedge-flip block (independent of where the dump function sits); it reads every top-level signal's live
+  object and packs it with to_bits().  The .vcd file is tokenised here (header -> (scope.name, width, code); body -> `#t` tokens and
   raw value-change lines) and handed to Coq, where for every case
      * parse_lines + decode (the proved reader) reconstruct every signal at every cycle, compared with the samples
        by rows_match; clock_wave is compared with expected_clock;                       [the property itself]
@@ -318,7 +319,11 @@ def load_design(src, name):
   return mod, fn
 
 def insert_sampler(top, vcd_func, fn):
-  """put fn immediately before the VCD dump function in every schedule list that PrepareSimPass closed over"""
+  """put fn at the clock edge of every tick schedule PrepareSimPass closed over (sim_tick and the ff part of
+  sim_reset): immediately before the first flip-flop / posedge-flip block, i.e. after all combinational blocks of the
+  cycle and before any state changes.  The schedules are recognised by containing the VCD dump function; where that
+  function sits inside them is NOT used (a dump moved behind the flip must disagree with the samples)."""
+  edge = list(top._sched.schedule_ff) + list(top._sched.schedule_posedge_flip)
   seen, count = set(), [0]
   def walk(f, depth):
     if depth > 3: return
@@ -328,7 +333,10 @@ def insert_sampler(top, vcd_func, fn):
       if isinstance(v, list):
         if id(v) not in seen and any(e is vcd_func for e in v):
           seen.add(id(v))
-          v.insert([k for k, e in enumerate(v) if e is vcd_func][0], fn)
+          pos = [k for k, e in enumerate(v) if any(e is g for g in edge)]
+          if not pos: pos = [k for k, e in enumerate(v) if getattr(e, '__name__', '') == 'advance_sim_cycle']
+          if not pos: raise RuntimeError('cannot locate the clock edge in a tick schedule')
+          v.insert(pos[0], fn)
           count[0] += 1
       elif callable(v) and v is not fn and v is not vcd_func and hasattr(v, '__closure__'):
         walk(v, depth + 1)
